@@ -21,8 +21,9 @@ from sx import runner
 from . import common, fam_merge
 
 PROP = "C05"
-GENERIC_STRATS = {"quick": ("none", "use-local", "use-base"),
-                  "thorough": ("none", "use-base", "use-local", "use-remote", "union", "clear", "mergetool")}
+GENERIC_STRATS = {"quick": ("none", "use-local", "union@paths"),
+                  "thorough": ("none", "use-base", "use-local", "use-remote", "union", "clear", "mergetool",
+                               "union@paths", "use-remote@paths", "clear@paths")}
 
 
 def witness_F16():
